@@ -565,3 +565,30 @@ Qed.
 Lemma unit_len_check_sound x y z : unit_len_check x y z = true ->
   (1 - unit_tol) * (1 - unit_tol) <= x * x + y * y + z * z <= (1 + unit_tol) * (1 + unit_tol).
 Proof. unfold unit_len_check. intro H. apply andb_true_iff in H as [H1 H2]. split; apply Qle_bool_iff; assumption. Qed.
+
+(* ================================================================== source formulas = model formulas *)
+(* Gen.v carries the three vector components of each routine translated expression by expression
+   from the source under test; they are the components the model uses *)
+Open Scope R_scope.
+
+Lemma euler_src_ok r a b :
+  euler_xyz_src (r_psi r) (r_st r) (r_ct r) (r_phi r) a b = Some (euler_xyz r a b).
+Proof. unfold euler_xyz_src, euler_xyz. f_equal; try (apply vec_eq; ring). Qed.
+
+Lemma rotate_src_ok phi theta psi ra dec :
+  rotate_xyz_src phi theta psi ra dec = Some (euler_xyz (rotate_row phi theta psi) ra dec).
+Proof.
+  unfold rotate_xyz_src, euler_xyz, rotate_row, r_phi, r_st, r_ct; simpl fst; simpl snd.
+  f_equal; try (apply vec_eq; ring).
+Qed.
+
+Lemma thetaphi_src_ok (deg stomp : bool) (ra dec : R) :
+  thetaphi2xyz_xyz_src (ang_in deg ra - (if stomp then sdss_node else 0)) (ang_in deg dec)
+  = Some (eq2xyz_R deg stomp ra dec).
+Proof. unfold thetaphi2xyz_xyz_src, eq2xyz_R. f_equal; try (apply vec_eq; ring). Qed.
+
+Lemma sdss2eq_src_ok cl ce : sdss2eq_xyz_src cl ce = Some (sdss_unit (cl * D2R) (ce * D2R)).
+Proof. unfold sdss2eq_xyz_src, sdss_unit. f_equal; try (apply vec_eq; ring). Qed.
+
+Lemma eq2sdss_src_ok ra dec : eq2sdss_xyz_src ra dec = Some (eq2sdss_xyz ra dec).
+Proof. unfold eq2sdss_xyz_src, eq2sdss_xyz. f_equal; try (apply vec_eq; ring). Qed.
